@@ -251,6 +251,26 @@ func TestF13PushScalarParams(t *testing.T) {
 	}
 }
 
+func TestF15NullParamsEmitted(t *testing.T) {
+	// a value that marshals to null (typed nil pointer) must not be sent as "params":null
+	peer, cch := rawPair()
+	cli := jrpc2.NewClient(cch, nil)
+	defer func() { peer.Close(); cli.Close() }()
+	got := make(chan string, 1)
+	go func() { b, _ := peer.Recv(); got <- string(b) }()
+	if err := cli.Notify(context.Background(), "m", (*int)(nil)); err != nil {
+		t.Fatalf("Notify: %v", err)
+	}
+	select {
+	case m := <-got:
+		if strings.Contains(m, `"params"`) {
+			t.Errorf("client emitted a non-structured params member: %s", m)
+		}
+	case <-time.After(200 * time.Millisecond):
+		t.Errorf("nothing sent")
+	}
+}
+
 type strictArg struct {
 	A int `json:"a"`
 }
